@@ -36,6 +36,8 @@ def order_grid(ts):
     vals = [-INF, INF, NAN, ts[0] - 1.5, ts[-1] + 2.25]
     for a in ts:
         vals.append(a)
+        # just off the threshold on either side: a closed end includes the threshold itself and nothing else
+        vals += [a + 1e-6, a - 1e-6, float(np.nextafter(a, INF)), float(np.nextafter(a, -INF))]
     for a, b in zip(ts, ts[1:]):
         if a != b:
             vals.append((a + b) / 2)
@@ -175,7 +177,11 @@ def _explore(out, tier, seed, facts, replay=None):
                                           {"fn": "Interval.within", "kind": kind, "bin_type": bt, "t": t, "u": u, "x": repr(x)})
                 # thresholding vs documented event (needs upper for the within family)
                 try:
-                    r = verif.util.apply_threshold(np.array(grid, float), bt, t, u if "within" in bt else None)
+                    garr = np.array(grid, float)
+                    r = verif.util.apply_threshold(garr, bt, t, u if "within" in bt else None)
+                    if not np.array_equal(garr, np.array(grid, float), equal_nan=True):
+                        out.violation("apply_threshold:input-modified", "apply_threshold(array, %r, %r) overwrites the array it is given: %r became %r"
+                                      % (bt, t, grid[:8], garr.tolist()[:8]), {"fn": "apply_threshold", "bin_type": bt, "t": t, "values": [repr(x) for x in grid]})
                     for x, v in zip(grid, r):
                         want = NAN if math.isnan(x) else float(doc_event(bt, t, u, x))
                         if not close(v, want):
